@@ -201,13 +201,15 @@ fn gen_frame_script(g: &mut Rng, rec: &mut Recorder) -> Script {
 }
 
 fn gen_session_script(g: &mut Rng, rec: &mut Recorder) -> Script {
-    let long = g.chance(1, 6);
-    let mut msgs = if long { rec.bump("sess.long-invalid"); long_stream(g) } else if g.chance(3, 4) { valid_stream(g) } else { (0..g.range(1, 6)).map(|_| some_message(g)).collect() };
+    let run = g.chance(1, 8);
+    let long = run || g.chance(1, 6);
+    let mut msgs = if run { rec.bump("sess.rejected-run"); run_stream(g) } else if long { rec.bump("sess.long-invalid"); long_stream(g) } else if g.chance(3, 4) { valid_stream(g) } else { (0..g.range(1, 6)).map(|_| some_message(g)).collect() };
     let nmut = if long { 0 } else { match g.below(4) { 0 => 0, 1 | 2 => 1, _ => 2 } };
     for _ in 0..nmut { let i = g.below(msgs.len() as u64) as usize; if !msgs[i].is_empty() { let mut m = msgs[i].clone(); if m.len() >= 6 { mutate(g, &mut m, rec); } msgs[i] = m; } }
     let mut s: Script = vec![];
     for m in msgs {
-        if g.chance(1, 6) && m.len() > 1 {
+        // a long run of rejected messages is meant to be received in full: few injected faults there
+        if g.chance(1, if run { 150 } else { 6 }) && m.len() > 1 {
             let cut = g.range(0, m.len() as u64) as usize;
             s.push(Item::Data(m[..cut].to_vec()));
             s.push(Item::Fault(*g.pick(&FAULTS)));
@@ -216,7 +218,7 @@ fn gen_session_script(g: &mut Rng, rec: &mut Recorder) -> Script {
         } else {
             s.push(Item::Data(m));
         }
-        if g.chance(1, 10) { s.push(Item::Fault(*g.pick(&FAULTS))); rec.bump("sess.fault-between"); }
+        if g.chance(1, if run { 200 } else { 10 }) { s.push(Item::Fault(*g.pick(&FAULTS))); rec.bump("sess.fault-between"); }
     }
     match g.below(8) {
         0 => { s.push(Item::Term); if g.chance(1, 2) { s.push(Item::Data(some_message(g))); } rec.bump("sess.gate-terminated"); }
